@@ -2336,6 +2336,21 @@ func ruleServerResponseEncoding(p *Prog, r *Out) {
 		} else {
 			r.bad("flush when the queue is empty (or enough is buffered) and nothing failed", c.pos, "the write loop never flushes after a frame")
 		}
+		// the loop goes on after a frame that was sent and leaves after one that was not
+		nSend, okSend := 0, true
+		ast.Inspect(fd.Body, func(n ast.Node) bool {
+			cc, ok := n.(*ast.CommClause)
+			if !ok || cc.Comm == nil || squash(p.text(cc.Comm)) != "fr:=<-sc.writer" {
+				return true
+			}
+			nSend++
+			t := stmtTexts(p, cc.Body)
+			if len(t) != 1 || t[0] != "ifsend(fr)!=nil{return}" {
+				okSend = false
+			}
+			return true
+		})
+		r.check(nSend >= 2 && okSend, "the write loop leaves exactly when a frame could not be sent", p.pos(fd.Pos()), "case fr := <-sc.writer: if send(fr) != nil { return } (both in the loop and in the drain)", "the write loop no longer carries on after a frame that was sent and returns after one that was not: it stops after the first frame of the connection, or keeps writing to a socket that has failed")
 		drainFlush := false
 		ast.Inspect(fd.Body, func(n ast.Node) bool {
 			if cc, ok := n.(*ast.CommClause); ok && cc.Comm == nil { // default arm
